@@ -105,6 +105,12 @@ type node struct {
 
 	nutsHeads map[string]nutsHead
 	webVers   map[string]int
+
+	// producer only: status lists
+	gate       *txGate           // scheduling seam of the node's StatusList2021 (transactions)
+	extLists   map[string][]byte // lists external issuers serve, by URL
+	fetches    map[string]int    // downloads by URL
+	lastServed map[string][]byte // last body handed out per URL
 }
 
 func newNode(t *testing.T, name string, producer bool, doer core.HTTPRequestDoer) *node {
@@ -146,7 +152,18 @@ func newNode(t *testing.T, name string, producer bool, doer core.HTTPRequestDoer
 			return nil, fmt.Errorf("no network in the verification sandbox: %s", req.URL)
 		})
 	}
-	n.status = revocation.NewStatusList2021(n.db, doer, statusBaseURL)
+	statusDB := n.db
+	if producer {
+		// the status list works on the same database through a handle whose transactions pass the gate
+		sqlDB, err := n.db.DB()
+		if err != nil {
+			t.Fatal(err)
+		}
+		n.gate, n.extLists, n.fetches, n.lastServed = &txGate{}, map[string][]byte{}, map[string]int{}, map[string][]byte{}
+		statusDB = n.db.Session(&gorm.Session{Context: context.Background()})
+		statusDB.Statement.ConnPool = &gatedPool{DB: sqlDB, gate: n.gate}
+	}
+	n.status = revocation.NewStatusList2021(statusDB, doer, statusBaseURL)
 	if producer {
 		n.keys = nutscrypto.NewDatabaseCryptoInstance(n.db)
 		ib, err := prov.GetKVStore("backup-issued-credentials", storage.PersistentStorageClass)
@@ -174,6 +191,12 @@ func statusDoer(producer func() *node) core.HTTPRequestDoer {
 	return doerFunc(func(req *http.Request) (*http.Response, error) {
 		a := producer()
 		u := req.URL
+		a.fetches[u.String()]++
+		if body, ok := a.extLists[u.String()]; ok { // the list of an external issuer, served by that issuer
+			a.lastServed[u.String()] = body
+			return &http.Response{StatusCode: 200, Header: http.Header{"Content-Type": []string{"application/json"}},
+				Body: io.NopCloser(bytes.NewReader(body))}, nil
+		}
 		if !strings.HasPrefix(u.String(), statusBaseURL+"/statuslist/") {
 			return &http.Response{StatusCode: 404, Body: io.NopCloser(strings.NewReader("not found"))}, nil
 		}
@@ -193,6 +216,7 @@ func statusDoer(producer func() *node) core.HTTPRequestDoer {
 			return &http.Response{StatusCode: 404, Body: io.NopCloser(strings.NewReader(err.Error()))}, nil
 		}
 		body, _ := json.Marshal(cred)
+		a.lastServed[u.String()] = body
 		return &http.Response{StatusCode: 200, Header: http.Header{"Content-Type": []string{"application/json"}},
 			Body: io.NopCloser(bytes.NewReader(body))}, nil
 	})
